@@ -173,7 +173,7 @@ func VH_C11_Session() {
 					// a relay hiccup (truncated frame) may fail one
 					// Accept or Dial visibly; like gRPC the caller
 					// simply calls again
-					if a.err != nil && s.relay.junkAt != 0 && retries < 3 {
+					if a.err != nil && s.relay.junkAt+s.relay.junkAt2 != 0 && retries < 3 {
 						retries++
 						vReach("accept-recalled")
 						go func() { c, err := s.srv.Accept(); acc <- vConnResult{c, err} }()
@@ -181,7 +181,7 @@ func VH_C11_Session() {
 					}
 					got++
 				case d = <-dia:
-					if d.err != nil && s.relay.junkAt != 0 && retries < 3 {
+					if d.err != nil && s.relay.junkAt+s.relay.junkAt2 != 0 && retries < 3 {
 						retries++
 						vReach("dial-recalled")
 						go func() { c, err := s.cli.Dial(s.ctx, "relay"); dia <- vConnResult{c, err} }()
@@ -257,6 +257,7 @@ func VH_C11_Session() {
 		return
 	case <-time.After(20 * time.Second):
 	}
+	s.relay.nextCycle()
 	if vBool("client_closes_2") {
 		if !between(cn, sr.conn, acc, "Accept handed out a further connection after the peer closed but while the second server connection is still open") {
 			return
